@@ -1,12 +1,16 @@
 PROPERTY = 'C03'
 CXX = ['-D__TBB_BUILD', '-mwaitpkg', '-mrtm']
+# virtual calls are promoted to compare-and-dispatch over these classes only (any other target = llvm.trap = assertion failure):
+# the coroutine / sleeping-thread classes (resume_task, task_proxy, resume_node, wait_node) cannot occur in the one-thread world
+DEVIRT = ['function_task', 'function_stack_task', 'task_handle_task', 'reference_vertex', 'wait_context_vertex', '_ZN3tbb6detail2d14taskD']
+CB = ['--unwind', '10', '--object-bits', '12', '--paths', 'lifo']   # path-wise symbolic execution: every path of the symbolic throw mask is explored and decided separately
 UNITS = {
   'tg': dict(wrapper='w_tg.cpp', mode='seq', cxxflags=CXX, exceptions=True, prune=True, inline_threshold=225,
-             cut=['receive_or_steal_task'], devirt=True),
+             cut=['receive_or_steal_task'], devirt=DEVIRT),
 }
 HARNESSES = [
   dict(name='tg_wait', unit='tg', harness='h_tg.c', defines={'SCEN': 1}, scenarios=[{'N': 1, 'REUSE': 0}, {'N': 2, 'REUSE': 1}],
-       cbmc=['--unwind', '10', '--object-bits', '12'], timeout=600,
+       cbmc=CB, timeout=600,
        desc='real task_group::run x N + wait() on the real dispatcher loop, symbolic subset of bodies throws', bounds={'tasks': 'N', 'threads': 1}),
 ]
 OUTSIDE = []
